@@ -92,6 +92,17 @@ func applyMutant(m Mutant) (map[string][]byte, error) {
 
 // runSelftest runs the must-fail corpus; returns 0 when every mutant is detected.
 func runSelftest(prop string, quiet bool) int {
+	// Every mutant recompiles the mutated package and its dependents; those objects are useless
+	// afterwards. They go to a build cache of their own, which is emptied once it has grown
+	// beyond a few GB, so that the must-fail corpus cannot fill the disk.
+	if os.Getenv("GOWP_KEEP_GOCACHE") == "" {
+		home, _ := os.UserHomeDir()
+		dir := filepath.Join(home, ".cache", "gowp-selftest-build")
+		if err := os.MkdirAll(dir, 0o755); err == nil {
+			os.Setenv("GOCACHE", dir)
+			defer pruneDirIfLarger(dir, 8<<30)
+		}
+	}
 	var props []string
 	if prop != "" {
 		props = []string{prop}
@@ -107,6 +118,10 @@ func runSelftest(prop string, quiet bool) int {
 	bad := 0
 	total := 0
 	for _, p := range props {
+		if d := os.Getenv("GOCACHE"); strings.Contains(d, "gowp-selftest-build") {
+			pruneDirIfLarger(d, 8<<30)
+			os.MkdirAll(d, 0o755)
+		}
 		ms, err := loadMutants(p)
 		if err != nil {
 			fmt.Fprintf(os.Stderr, "selftest: %v\n", err)
@@ -154,4 +169,18 @@ func runSelftest(prop string, quiet bool) int {
 		return 3
 	}
 	return 0
+}
+
+// pruneDirIfLarger removes dir when its content exceeds limit bytes.
+func pruneDirIfLarger(dir string, limit int64) {
+	var total int64
+	filepath.Walk(dir, func(_ string, info os.FileInfo, err error) error {
+		if err == nil && !info.IsDir() {
+			total += info.Size()
+		}
+		return nil
+	})
+	if total > limit {
+		os.RemoveAll(dir)
+	}
 }
